@@ -478,7 +478,7 @@ func checkSingleDocument(e *Env, p *load.Program) {
 			}
 		}
 	}
-	r.Floor("E4.profile(YAML writer functions)", len(writers), 2)
+	r.Floor("E4.profile(YAML writer functions)", len(writers), 1)
 	nWrites := 0
 	for f, k := range writers {
 		w := f.Params[k]
@@ -647,9 +647,9 @@ func checkSingleDocument(e *Env, p *load.Program) {
 			}
 		}
 	}
-	r.Floor("E4.profile(writer calls of the command)", nFatal, 3)
+	r.Floor("E4.profile(writer calls of the command)", nFatal, 2)
 	r.Count("writes of the YAML writers examined", nWrites)
-	r.Floor("E4.profile(writes of the YAML writers)", nWrites, 2)
+	r.Floor("E4.profile(writes of the YAML writers)", nWrites, 1)
 }
 
 
